@@ -37,12 +37,12 @@ Proof.
   destruct (bytes_eqb k' k) eqn:E; [apply bytes_eqb_eq in E; subst; exact I|eapply Hc; exact H].
 Qed.
 
+Lemma chg_upd_ext c c' k n : (forall x, c x = c' x) -> forall x, chg_upd c k n x = chg_upd c' k n x.
+Proof. intros H x. unfold chg_upd. destruct (is_internal k); [apply H|]. destruct (bytes_eqb x k); [reflexivity|apply H]. Qed.
+
 (* ---------------------------------------------------------------- the Go map as an association list *)
-Fixpoint nm_get (m : nmap) (k : key) : option notif :=
-  match m with
-  | [] => None
-  | (k', n) :: tl => if bytes_eqb k k' then Some n else nm_get tl k
-  end.
+(* lookup: Notifications.nm_find (the Go map read) *)
+Notation nm_get := nm_find.
 
 Lemma nm_get_set m k n k' : nm_get (nm_set m k n) k' = if bytes_eqb k' k then Some n else nm_get m k'.
 Proof.
@@ -126,8 +126,44 @@ Definition put_resp_change (p : put_req) (r : put_resp) (c : chg) : chg :=
 Definition del_resp_change (d : del_req) (x : status) (c : chg) : chg :=
   match x with OK => chg_upd c (d_key d) NDeleted | _ => c end.
 
+(* a delete-range is reported under its start key, unless the range is empty (start >= end: nothing is deleted)
+   or a range with the same start key that covers it is already recorded *)
+Definition chg_range (c : chg) (s e : key) : chg :=
+  if is_internal s then c
+  else if key_geb s e then c
+  else match c s with
+       | Some (NRangeDeleted prev) => if key_geb prev e then c else chg_upd c s (NRangeDeleted e)
+       | _ => chg_upd c s (NRangeDeleted e)
+       end.
+
 Definition range_resp_change (r : range_req) (x : status) (c : chg) : chg :=
-  match x with OK => chg_upd c (r_start r) (NRangeDeleted (r_end r)) | _ => c end.
+  match x with OK => chg_range c (r_start r) (r_end r) | _ => c end.
+
+Lemma chg_range_clean c s e : chg_clean c -> chg_clean (chg_range c s e).
+Proof.
+  intro H. unfold chg_range. destruct (is_internal s); [exact H|]. destruct (key_geb s e); [exact H|].
+  destruct (c s) as [[v|v| |prev]|]; try (apply chg_upd_clean; exact H).
+  destruct (key_geb prev e); [exact H|apply chg_upd_clean; exact H].
+Qed.
+
+Lemma chg_range_ext c c' s e : (forall x, c x = c' x) -> forall x, chg_range c s e x = chg_range c' s e x.
+Proof.
+  intros H x. unfold chg_range. destruct (is_internal s) eqn:I; [apply H|]. destruct (key_geb s e); [apply H|].
+  rewrite <- (H s). destruct (c s) as [[v|v| |prev]|]; try (apply chg_upd_ext; exact H).
+  destruct (key_geb prev e); [apply H|apply chg_upd_ext; exact H].
+Qed.
+
+Lemma nm_rep_range m c s e : nm_rep m c -> nm_rep (notif_deleted_range m s e) (chg_range c s e).
+Proof.
+  intros [nm [-> [Hd Hg]]]. unfold notif_deleted_range, chg_range.
+  destruct (is_internal s) eqn:I; [exists nm; split; [reflexivity|split; assumption]|].
+  destruct (key_geb s e); [exists nm; split; [reflexivity|split; assumption]|].
+  assert (Hset : nm_rep (Some (nm_set nm s (NRangeDeleted e))) (chg_upd c s (NRangeDeleted e))).
+  { pose proof (nm_rep_set (Some nm) c s (NRangeDeleted e) (ex_intro _ nm (conj eq_refl (conj Hd Hg)))) as R.
+    rewrite I in R. exact R. }
+  rewrite <- (Hg s). destruct (nm_find nm s) as [[v|v| |prev]|]; try exact Hset.
+  destruct (key_geb prev e); [exists nm; split; [reflexivity|split; assumption]|exact Hset].
+Qed.
 
 Fixpoint puts_resp_changes (ps : list put_req) (rs : list put_resp) (c : chg) : chg :=
   match ps, rs with
@@ -205,8 +241,7 @@ Lemma range_nm cb t w r w' x c :
 Proof.
   intros H Hc. rewrite apply_delete_range_unfold in H. unfold range_resp_change.
   destruct (scan_callbacks cb (w_kv w) (kv_range (w_kv w) (Some (r_start r)) (Some (r_end r)))) as [b1|e]; [|discriminate].
-  inversion H; subst w' x; clear H. simpl. unfold notif_deleted_range.
-  apply (nm_rep_set _ _ (r_start r) (NRangeDeleted (r_end r))) in Hc. destruct (w_nm w); exact Hc.
+  inversion H; subst w' x; clear H. simpl. apply nm_rep_range. exact Hc.
 Qed.
 
 Lemma puts_nm cb ps : forall w ts w' rs c,
@@ -266,7 +301,7 @@ Qed.
 Lemma ranges_resp_changes_clean rs : forall xs c, chg_clean c -> chg_clean (ranges_resp_changes rs xs c).
 Proof.
   induction rs as [|r tl IH]; intros [|x xs] c Hc; simpl; try exact Hc. apply IH.
-  unfold range_resp_change. destruct x; try exact Hc. apply chg_upd_clean. exact Hc.
+  unfold range_resp_change. destruct x; try exact Hc. apply chg_range_clean. exact Hc.
 Qed.
 
 (* no internal key is ever recorded *)
@@ -320,9 +355,6 @@ Definition changes (s : sstate) (req : write_req) (cs : list seq_choice) (ts : N
 (* modification counts have not wrapped: every record's count lies between 0 and the last version id *)
 Definition mod_ok (s : sstate) : Prop :=
   (-1 <= s_last s)%Z /\ forall k e, s_recs s k = Some e -> (0 <= e_modcount e <= s_last s)%Z.
-
-Lemma chg_upd_ext c c' k n : (forall x, c x = c' x) -> forall x, chg_upd c k n x = chg_upd c' k n x.
-Proof. intros H x. unfold chg_upd. destruct (is_internal k); [apply H|]. destruct (bytes_eqb x k); [reflexivity|apply H]. Qed.
 
 Lemma mod_ok_store s k p cur ts rk :
   mod_ok s -> (s_last s + 1 < TWO63)%Z -> (cur = None \/ s_recs s k = cur) ->
@@ -430,7 +462,7 @@ Proof.
       destruct (key_in_range (Some (r_start r)) (Some (r_end r)) k0); [discriminate|apply Hm]. }
     destruct M1 as [M1 L1].
     assert (E1 : forall x0, range_resp_change r x c x0 = range_resp_change r x c' x0).
-    { intro x0. unfold range_resp_change. destruct x; try apply Hc. apply chg_upd_ext. exact Hc. }
+    { intro x0. unfold range_resp_change. destruct x; try apply Hc. apply chg_range_ext. exact Hc. }
     destruct (IH _ _ _ _ _ Q M1 E1) as [E2 [E3 [M2 L2]]].
     split; [exact E2|]. split; [exact E3|]. split; [exact M2|congruence].
 Qed.
